@@ -403,6 +403,9 @@ fn callback_findings(s: &dyn Subject, sd: &SubjectDef, input: &[u8], obs: &Obs, 
 fn check_input(prop: &str, s: &dyn Subject, sd: &SubjectDef, p: &Prepared, input: &[u8], mut run: Option<&mut Run>, def_key: u64) -> Vec<Finding> {
     let utf8 = sd.def.utf8;
     let mode = Mode { trace: prop == "C20", ..Mode::default() };
+    // C05: the source is an exactly sized heap allocation, so that a sanitizer build sees any read past its end
+    let exact: Box<[u8]> = input.into();
+    let input: &[u8] = &exact;
     let obs = lex_catch(s, 0, input, mode);
     let key = {
         let mut k = def_key.to_le_bytes().to_vec();
@@ -456,6 +459,22 @@ fn check_input(prop: &str, s: &dyn Subject, sd: &SubjectDef, p: &Prepared, input
                 }
             }
             "C05" => {
+                // every prefix length of short inputs (loop exits land on every residue modulo the 8-byte batch)
+                if input.len() <= 40 {
+                    for k in 0..input.len() {
+                        if utf8 && (input[k] & 0xC0) == 0x80 {
+                            continue;
+                        }
+                        let pre: Box<[u8]> = input[..k].into();
+                        let o = lex_catch(s, 0, &pre, Mode::default());
+                        if let Some(run) = run.as_deref_mut() {
+                            run.eval(1);
+                        }
+                        f.extend(anomaly_findings(&o, utf8));
+                        let o = lex_catch(s, 0, &pre, Mode { partial: true, ..Mode::default() });
+                        f.extend(anomaly_findings(&o, utf8));
+                    }
+                }
                 if let Some(run) = run.as_deref_mut() {
                     // non-trivial: a token ends exactly at the end of the allocation, or the input length is within
                     // 8 of a multiple of 8 and the definition has a fast loop
@@ -591,6 +610,18 @@ pub fn main(subjects: &[&'static dyn Subject], defs_json: &str, cfg: BuildCfg) -
     let set: SubjectSet = serde_json::from_str(defs_json).expect("defs.json");
     assert_eq!(set.defs.len(), subjects.len(), "subject table and defs.json disagree");
     let prop = args.prop.clone();
+    if prop == "HANGCHECK" {
+        // child of the watchdog: lex one case and exit
+        let idx = args.extra_u64("def", 0) as usize;
+        let which = args.extra_u64("which", 0) as u8;
+        let partial = args.extra_u64("partial", 0) == 1;
+        let input = unhex(args.extra.get("input").map(|s| s.as_str()).unwrap_or(""));
+        let _ = lex_catch(subjects[idx], which, &input, Mode { partial, ..Mode::default() });
+        return 0;
+    }
+    if !["STACK", "STACKCHILD", "REPLAY"].contains(&prop.as_str()) {
+        start_watchdog(&prop, &set, &args, &cfg);
+    }
     if prop == "DUMP" {
         return dump(subjects, &set, &args);
     }
@@ -719,6 +750,26 @@ fn replay(subjects: &[&'static dyn Subject], set: &SubjectSet, args: &Args, cfg:
         println!("replay: definition is not accepted any more; no violation of {prop}");
         return 0;
     };
+    if v.get("hang").is_some() {
+        let exe = std::env::current_exe().unwrap();
+        let partial = v["partial"].as_bool().unwrap_or(false);
+        let mut child = std::process::Command::new(exe)
+            .args(["HANGCHECK", "--def", "0", "--which", "0", "--partial", if partial { "1" } else { "0" }, "--input", &hex(&input)])
+            .spawn()
+            .expect("spawn");
+        let t0 = std::time::Instant::now();
+        while t0.elapsed().as_secs() < 20 {
+            if let Ok(Some(_)) = child.try_wait() {
+                println!("replay: lexing terminates; no violation of {prop} in config {}", cfg.name());
+                return 0;
+            }
+            std::thread::sleep(std::time::Duration::from_millis(100));
+        }
+        let _ = child.kill();
+        println!("replay[{}]: lexing {} does not terminate within 20 s", cfg.name(), show(&input));
+        println!("VIOLATION property={prop} replay={}", path.display());
+        return 1;
+    }
     if let Some(mode) = v.get("dump_mode") {
         // differential replay: print the observation for the check script to compare
         let partial = mode.as_u64() == Some(1);
@@ -837,4 +888,63 @@ fn stack_parent(set: &SubjectSet, args: &Args, cfg: &BuildCfg) -> i32 {
     }
     run.write_evidence(&args.evidence);
     code
+}
+
+/// Hang watchdog: a thread that notices when no lex call has completed for 30 s, confirms the hang on
+/// the current (subject, input) in a child process (20 s), and then ends the run: for C03 (whose clause
+/// is termination) with a VIOLATION and a replay file, for every other property with exit 2
+/// (inconclusive) - a hang is never reported as a violation of another property.
+fn start_watchdog(prop: &str, set: &SubjectSet, args: &Args, cfg: &BuildCfg) {
+    use std::sync::atomic::Ordering;
+    let prop = prop.to_string();
+    let replay_dir = args.replay_dir.clone();
+    let cfg = *cfg;
+    let defs: Vec<SubjectDef> = set.defs.clone();
+    std::thread::spawn(move || {
+        let mut last = crate::PROGRESS.load(Ordering::Relaxed);
+        let mut stuck = 0u32;
+        loop {
+            std::thread::sleep(std::time::Duration::from_secs(2));
+            let now = crate::PROGRESS.load(Ordering::Relaxed);
+            if now != last {
+                last = now;
+                stuck = 0;
+                continue;
+            }
+            stuck += 1;
+            if stuck < 15 || now == 0 {
+                continue;
+            }
+            let cur = crate::CURRENT.lock().ok().and_then(|c| c.clone());
+            let Some((idx, which, input, partial)) = cur else { continue };
+            // confirm in a child process
+            let exe = std::env::current_exe().unwrap();
+            let mut child = std::process::Command::new(exe)
+                .args(["HANGCHECK", "--def", &idx.to_string(), "--which", &which.to_string(), "--partial", if partial { "1" } else { "0" }, "--input", &hex(&input)])
+                .spawn()
+                .expect("spawn hangcheck");
+            let t0 = std::time::Instant::now();
+            let mut finished = false;
+            while t0.elapsed().as_secs() < 20 {
+                if let Ok(Some(_)) = child.try_wait() {
+                    finished = true;
+                    break;
+                }
+                std::thread::sleep(std::time::Duration::from_millis(200));
+            }
+            let _ = child.kill();
+            if !finished && prop == "C03" {
+                let sd = &defs[idx];
+                let f = vec![Finding { property: "C03", at: 0, what: format!("lexing {} does not terminate: no item was returned within 30 s, confirmed in a fresh process (20 s)", show(&input)) }];
+                let rust = model::prep::render(&sd.def);
+                let mut doc = subject_replay("C03", &cfg, idx, sd, &rust, &input, &f);
+                doc["hang"] = json!(true);
+                doc["partial"] = json!(partial);
+                report_violation("C03", &replay_dir, &doc);
+                std::process::exit(1);
+            }
+            eprintln!("watchdog: no progress for 30 s on subject {idx} input {} (hang confirmed: {}); property {prop} is not the termination property: inconclusive", show(&input), !finished);
+            std::process::exit(2);
+        }
+    });
 }
